@@ -685,6 +685,7 @@ class Facts:
         self.statics = {s["path"]: s for s in self.raw["statics"]}
         self.impls = self.raw["impls"]
         self.reachable_items = set(self.raw["reachable"])
+        self.exported_items = set(self.raw.get("exported") or self.raw["reachable"])
         self.instances = {i["inst"]: i for i in self.raw["instances"]}
         self.inst_by_def = defaultdict(list)
         for i in self.raw["instances"]:
@@ -704,6 +705,16 @@ class Facts:
 
     def is_public_api(self, path):
         return path in self.reachable_items
+
+    def is_exported(self, path):
+        """can code outside the crate name (and therefore call) this item?"""
+        if path in self.exported_items:
+            return True
+        # methods of an exported type / impls of an exported trait for an exported type are callable through the type
+        b = self.bodies.get(path)
+        if b is not None and b.rec.get("impl_self_adt"):
+            return b.rec["impl_self_adt"] in self.exported_items and (b.vis == "Public" or bool(b.impl_trait))
+        return False
 
     # ------------------------------------------------------------------ call graph (monomorphic)
     def callees_of_instance(self, inst_name):
